@@ -69,3 +69,46 @@ positions_harness!(line_range_n6, inline_range_n6, 6);
 positions_harness!(line_range_n8, inline_range_n8, 8);
 positions_harness!(line_range_n10, inline_range_n10, 10);
 positions_harness!(line_range_n12, inline_range_n12, 12);
+
+// line_starts (C13): the REAL function on a text of n symbolic ASCII bytes (any of the 128 codes, so "\r\n",
+// "\n", "\r", NUL, ... in every arrangement).  Bounded over n; ASCII only (in UTF-8 a byte 0x0A never occurs inside
+// a multi-byte character, but that argument is not machine-checked here).
+// Contract (from the property: a position is the line and column of the byte in the editor's text): the table is
+// 0 followed by the offset just after every '\n' byte, in increasing order - nothing else.
+macro_rules! line_starts_harness {
+    ($name:ident, $n:expr) => {
+        #[kani::proof]
+        #[kani::unwind(12)]
+        fn $name() {
+            let bytes: [u8; $n] = kani::any();
+            let mut i = 0;
+            let mut newlines = 0;
+            while i < $n {
+                kani::assume(bytes[i] < 128);
+                if bytes[i] == b'\n' {
+                    newlines += 1;
+                }
+                i += 1;
+            }
+            let content = unsafe { std::str::from_utf8_unchecked(&bytes) };
+            let ls = line_starts(content);
+            assert!(ls.len() == newlines + 1);
+            assert!(ls[0] == 0);
+            let mut k = 1;
+            while k < ls.len() {
+                assert!(ls[k] > ls[k - 1]);
+                assert!(ls[k] >= 1 && ls[k] <= $n);
+                assert!(bytes[ls[k] - 1] == b'\n');
+                k += 1;
+            }
+        }
+    };
+}
+line_starts_harness!(line_starts_n0, 0);
+line_starts_harness!(line_starts_n1, 1);
+line_starts_harness!(line_starts_n2, 2);
+line_starts_harness!(line_starts_n3, 3);
+line_starts_harness!(line_starts_n4, 4);
+line_starts_harness!(line_starts_n5, 5);
+line_starts_harness!(line_starts_n6, 6);
+line_starts_harness!(line_starts_n8, 8);
